@@ -298,6 +298,19 @@ class StepRig:
         if transport == 'unix':
             a, b = socket.socketpair(socket.AF_UNIX, socket.SOCK_STREAM)
             addr: Any = None
+        elif transport == 'tcp6':
+            # a client of an IPv6 listener: accept() reports its address as a 4-tuple (host, port, flowinfo, scope id)
+            if getattr(self, '_tcp6_listener', None) is None:
+                ls6 = socket.socket(socket.AF_INET6, socket.SOCK_STREAM)
+                ls6.setsockopt(socket.SOL_SOCKET, socket.SO_REUSEADDR, 1)
+                ls6.bind(('::1', 0))
+                ls6.listen(64)
+                self._tcp6_listener = ls6
+            a = socket.socket(socket.AF_INET6, socket.SOCK_STREAM)
+            if rcvbuf:
+                a.setsockopt(socket.SOL_SOCKET, socket.SO_RCVBUF, rcvbuf)
+            a.connect(self._tcp6_listener.getsockname())
+            b, addr = self._tcp6_listener.accept()
         else:
             if self._tcp_listener is None:
                 ls = socket.socket(socket.AF_INET, socket.SOCK_STREAM)
@@ -358,6 +371,8 @@ class StepRig:
             mine.update(c.sock.fileno() for c in o.conns if not c.closed)
         if self._tcp_listener is not None:
             mine.add(self._tcp_listener.fileno())
+        if getattr(self, '_tcp6_listener', None) is not None:
+            mine.add(self._tcp6_listener.fileno())
         now = open_fds()
         out = {}
         for fd, target in now.items():
@@ -375,6 +390,8 @@ class StepRig:
             o.close()
         if self._tcp_listener is not None:
             self._tcp_listener.close()
+        if getattr(self, '_tcp6_listener', None) is not None:
+            self._tcp6_listener.close()
         # release whatever the executor still holds so the next case starts clean
         try:
             for wid in list(self.ex.works.keys()):
